@@ -5,7 +5,9 @@ that returns `()`, make its whole effect conditional -- `if std::thread::panicki
 notices. An undetected mutant is a lead, not a verdict: some functions are legitimately free to do nothing (pure
 logging, caches); the leads are triaged by hand and the confirmed ones become rules + entries in mutations.py.
 
-usage: selftest/survey.py [-j N] [property ...]      writes .cache/survey.json
+usage: selftest/survey.py [--op panic-return|negate-if|negate-if-all|drop-stmt] [-j N] [--no-triage] [property ...]
+writes .cache/survey-<op>.json; mutants no check notices are then run against the touched crate's own tests, and only
+those the suite also lets through are listed as MISSED
 """
 import json, os, re, shutil, subprocess, sys, tempfile
 from concurrent.futures import ThreadPoolExecutor
@@ -30,7 +32,18 @@ def candidates(props):
         if b.raw.get("expanded") or not sp.get("f", "").startswith("tracing") or "/src/" not in sp["f"]:
             continue
         m = re.match(r".*:(\d+)-(\d+)$", str(b.raw.get("span", "")))
-        out.append(dict(fn=fn, file=sp["f"], line=int(sp["l"]), end=int(m.group(2)) if m else int(sp["l"]) + 60, props=sorted(ps)))
+        c = dict(fn=fn, file=sp["f"], line=int(sp["l"]), end=int(m.group(2)) if m else int(sp["l"]) + 60, props=sorted(ps))
+        if OP in ("negate-if-all", "drop-stmt"):
+            src = open(os.path.join("/repo", c["file"])).read().split("\n")[c["line"] - 1:c["end"]]
+            if OP == "negate-if-all":
+                n = sum(1 for l in src if re.match(r"^(\s*)(\}\s*else\s+)?if (?!let\b)(.+) \{\s*$", l) and "cfg!" not in l)
+            else:
+                n = sum(1 for l in src[1:] if re.match(r"^\s+[A-Za-z_][\w:.&*()\[\]]*\((.*)\);\s*$", l)
+                        and not re.match(r"^\s*(let|return|debug_assert|assert|eprintln|println|panic|unreachable)\b", l) and "!" not in l.split("(")[0])
+            for k in range(n):
+                out.append(dict(c, nth=k))
+        else:
+            out.append(c)
     return out
 
 
@@ -41,13 +54,34 @@ def mutate(wt, c):
     path = os.path.join(wt, c["file"])
     lines = open(path).read().split("\n")
     i = c["line"] - 1
-    if OP == "negate-if":
-        # negate the first plain `if <cond> {` of the function (not `if let`, not inside a macro invocation line)
+    if OP in ("negate-if", "negate-if-all"):
+        # negate one plain `if <cond> {` of the function (not `if let`, not inside a macro invocation line): the first one,
+        # or with negate-if-all the c["nth"]-th one (one mutant per `if`)
         end = c.get("end", i + 60)
+        seen = 0
         for k in range(i, min(end, len(lines))):
             m = re.match(r"^(\s*)(\}\s*else\s+)?if (?!let\b)(.+) \{\s*$", lines[k])
             if m and "cfg!" not in lines[k]:
+                if seen < c.get("nth", 0):
+                    seen += 1
+                    continue
                 lines[k] = "%s%sif !(%s) {" % (m.group(1), m.group(2) or "", m.group(3))
+                open(path, "w").write("\n".join(lines))
+                c["mutated_line"] = k + 1
+                return True
+        return False
+    if OP == "drop-stmt":
+        # delete the c["nth"]-th statement of the form `<recv>.<method>(..);` / `<path>(..);` on one line (a call made only
+        # for its effect): an effect the property needs must be demanded by some rule
+        end = c.get("end", i + 60)
+        seen = 0
+        for k in range(i + 1, min(end, len(lines))):
+            if re.match(r"^\s+[A-Za-z_][\w:.&*()\[\]]*\((.*)\);\s*$", lines[k]) and not re.match(r"^\s*(let|return|debug_assert|assert|eprintln|println|panic|unreachable)\b", lines[k]) \
+                    and "!" not in lines[k].split("(")[0]:
+                if seen < c.get("nth", 0):
+                    seen += 1
+                    continue
+                lines[k] = re.sub(r"^(\s+)\S.*$", r"\1();", lines[k])
                 open(path, "w").write("\n".join(lines))
                 c["mutated_line"] = k + 1
                 return True
@@ -87,7 +121,7 @@ def worker(args):
 
 def main():
     global OP
-    args = sys.argv[1:]
+    args = [a for a in sys.argv[1:] if a != "--no-triage"]
     jobs = 4
     if args[:1] == ["--op"]:
         OP = args[1]; args = args[2:]
@@ -111,6 +145,31 @@ def main():
             subprocess.run(["git", "-C", "/repo", "worktree", "remove", "--force", wt])
             shutil.rmtree(wt, ignore_errors=True)
     res = [r for p in parts for r in p]
+    # triage: a missed mutant the crate's own tests catch is not a "realistic change that passes the existing tests"
+    missed0 = [r for r in res if r["outcome"] == "MISSED"]
+    if missed0 and "--no-triage" not in sys.argv:
+        wt = tempfile.mkdtemp(prefix="vsv-", dir="/tmp"); os.rmdir(wt)
+        subprocess.run(["git", "-C", "/repo", "worktree", "add", "--detach", "-q", wt, "HEAD"], check=True)
+        shutil.copy("/repo/Cargo.lock", os.path.join(wt, "Cargo.lock"))
+        tgt = tempfile.mkdtemp(prefix="vsv-target-", dir="/tmp")
+        try:
+            for c in missed0:
+                subprocess.run(["git", "-C", wt, "checkout", "-q", "--", "."], check=True)
+                mutate(wt, c)
+                crate = c["file"].split("/")[0]
+                feat = ["--features", "env-filter,json"] if crate == "tracing-subscriber" else []
+                env = dict(os.environ, CARGO_NET_OFFLINE="true", CARGO_TARGET_DIR=tgt)
+                pr = subprocess.run(["cargo", "test", "--offline", "-p", crate, "--no-fail-fast", "--lib", "--tests"] + feat, cwd=wt, env=env, capture_output=True, text=True)
+                failed = [l for l in pr.stdout.split("\n") if l.startswith("test ") and "FAILED" in l]
+                build_err = "error: could not compile" in pr.stderr or "error[" in pr.stderr
+                c["tests_failed"] = len(failed) if not build_err else -1
+                if failed or build_err:
+                    c["outcome"] = "missed-but-tests-fail"
+                print("triage %s:%s -> %s" % (c["file"], c.get("mutated_line"), "suite fails (%d)" % len(failed) if failed else ("does not build" if build_err else "SURVIVES the suite")), flush=True)
+        finally:
+            subprocess.run(["git", "-C", "/repo", "worktree", "remove", "--force", wt])
+            shutil.rmtree(wt, ignore_errors=True)
+            shutil.rmtree(tgt, ignore_errors=True)
     os.makedirs(os.path.join(VERIF, ".cache"), exist_ok=True)
     json.dump(res, open(os.path.join(VERIF, ".cache", "survey-%s.json" % OP), "w"), indent=1)
     missed = [r for r in res if r["outcome"] == "MISSED"]
